@@ -751,6 +751,39 @@ func GenC13x(rng *rand.Rand, thorough bool, emit func(*Sx)) {
 			}
 		}
 	}
+	// (a1) a second MAIL inside the transaction (no RSET in between): the recipients accepted so far stay
+	// accepted - the client holds a 250 for each - and every one of them gets its reply
+	for _, sess := range []bool{true, false} {
+		for _, bdat := range []bool{false, true} {
+			for _, second := range []string{"MAIL FROM:<s2@ok>", "MAIL FROM:<>"} {
+				cfg := DefaultCfg()
+				cfg.LMTP, cfg.LMTPSession = true, sess
+				f := newF(cfg)
+				f.hello()
+				f.cmd("MAIL FROM:<s@ok>", 250)
+				f.cmd("RCPT TO:<r0@ok>", 250)
+				f.cmd(second, 250)
+				f.cmd("RCPT TO:<r1@ok>", 250)
+				p := DefaultPlan()
+				want := []int{250, 250}
+				if sess {
+					p.Status = []StatusCall{{Addr: "r0@ok", Err: rejectErr()}, {Addr: "r1@ok", Err: BNil}}
+					want[0] = 550
+				}
+				f.script.Data = []DataPlan{p}
+				if bdat {
+					f.cmd("BDAT 7 LAST")
+					f.raw("hello\r\n")
+				} else {
+					f.cmd("DATA", 354)
+					f.raw("hello\r\n.\r\n")
+				}
+				f.expect(want...)
+				f.cmd("QUIT", 221)
+				emit(RunConv(f.caseOf("C13", segStream(rng, f.out, f.cuts, 0, rawEOF))))
+			}
+		}
+	}
 	// (a2) consecutive complete transactions with DIFFERENT recipient lists: every transaction has its own
 	// status collector
 	type tx struct {
@@ -2162,6 +2195,29 @@ func GenC19(rng *rand.Rand, thorough bool, emit func(*Sx)) {
 					emit(RunConv(f.caseOf("C19", segStream(rng, f.out, nil, hn%4, rawEOF))))
 				}
 			}
+		}
+	}
+	// (f) long UNBROKEN arguments well within the line limit, which the replies echo (greeting name, sender,
+	// recipient - also in the per-recipient LMTP replies): accepted like short ones, nothing panics
+	for _, lmtp := range []bool{false, true} {
+		for _, n := range []int{300, 480, 505, 520, 700, 1200, 1900} {
+			cfg := DefaultCfg()
+			cfg.LMTP, cfg.LMTPSession = lmtp, lmtp && n%2 == 0
+			f := newF(cfg)
+			w := strings.Repeat("a", n)
+			verb := "EHLO "
+			if lmtp {
+				verb = "LHLO "
+			}
+			f.cmd(verb+w, 250)
+			f.cmd("MAIL FROM:<"+w+"@example.org>", 250)
+			f.cmd("RCPT TO:<"+w+"@example.org>", 250)
+			f.cmd("DATA", 354)
+			f.raw("hi\r\n.\r\n")
+			f.expect(250)
+			f.cmd("NOOP", 250)
+			f.cmd("QUIT", 221)
+			emit(RunConv(f.caseOf("C19", segStream(rng, f.out, nil, n%2, rawEOF))))
 		}
 	}
 	// (d) all short strings over a hostile alphabet as command lines, and random binary input
